@@ -27,6 +27,7 @@ from ..engine import arrays as A
 from ..engine import lib as L
 from ..engine.values import SAtom, SReal, SBool, SInt, fresh
 from ..engine.arrays import SArray
+from ..engine.lmfit_model import sym_parameters
 
 LEVEL = "other"
 EXPLANATION = ("Deductive: index-range, fallback, first-exceedance, frame and totality clauses of compute_poc, the "
@@ -84,7 +85,9 @@ def unit_compute_poc(tier=None, seed=None):
         rd = I.fork(z3.Bool("ret_details"))
 
         def est(I, fv, args, kwargs):
-            # contract of every estimator: NaN or an index of the array it was given
+            # contract of every estimator: NaN or SOME integer -- not necessarily an index of the array it was
+            # given: the piecewise fits leave x0 unbounded (natively -382 for a curve that starts in contact),
+            # so compute_poc itself has to establish the index range
             arr = args[0]
             st["given"] = arr
             st["est_kwargs"] = kwargs
@@ -92,7 +95,6 @@ def unit_compute_poc(tier=None, seed=None):
             if I.fork(z3.Bool("estimate_is_nan")):
                 cp = V.NAN
             else:
-                I.assume(z3.And(j >= 0, j < arr.len_term()))
                 cp = SInt(j)
             return (cp, sx.SDict()) if kwargs.get("ret_details") else cp
         for fn in mod.env.vars["POC_METHODS"]:
@@ -131,7 +133,11 @@ def unit_compute_poc(tier=None, seed=None):
             nanp = z3.Bool("estimate_is_nan")
             # documented fallback: the middle of the (clipped) data
             S.ensure("nan_falls_back_to_the_middle", z3.Implies(nanp, t == m / 2), case=case)
-            S.ensure("estimate_passed_through", z3.Implies(z3.Not(nanp), t == z3.Int("estimate")), case=case)
+            e = z3.Int("estimate")
+            inside = z3.And(e >= 0, e < m)
+            S.ensure("estimate_passed_through", z3.Implies(z3.And(z3.Not(nanp), inside), t == e), case=case)
+            S.ensure("estimate_outside_the_data_falls_back_to_the_middle",
+                     z3.Implies(z3.And(z3.Not(nanp), z3.Not(inside)), t == m / 2), case=case)
         S.ensure("frame.force", not any(mm is f for mm in I.mutations), case=case)
 
     S.run(setup, post)
@@ -240,7 +246,7 @@ def unit_relational(which, tier=None, seed=None):
                         # pointwise: the rotated normalised curves coincide (non-constant force)
                         pw = z3.Implies(z3.And(i >= 0, i < n1, maxs[0] != mins[0]),
                                         V.rterm(fn2(i)) == V.rterm(fn1(i)))
-                        if S.ensure("lemma.normalised_curves_coincide", pw, extra=hints):
+                        if S.ensure("lemma.normalised_curves_coincide", pw, extra=hints, timeout_ms=120000):
                             hints = [z3.ForAll([i], pw)]     # generalisation of the arbitrary i
                         hints.append(maxs[0] != mins[0])
             if which == "frechet":
@@ -325,6 +331,99 @@ def unit_frechet(tier=None, seed=None):
     return S.finish(replay=replay_poc)
 
 
+def unit_piecewise(which, tier=None, seed=None):
+    """The three piecewise fits up to (and after) the external optimiser.
+
+    lmfit.minimize is under an ASSUMED contract: REQUIRES every initial parameter value and every data sample
+    to be a number (lmfit raises ValueError on NaN) -- this precondition is the proof obligation here --;
+    ENSURES a result whose ``success`` is any boolean and whose ``x0`` is ANY real number (unbounded parameter).
+    poc_frechet_direct_path is under its own contract (NaN or an index of the array; unit frechet_direct_path).
+    ret_details=False only (the details branch evaluates the nested model with in-place masked updates).
+    """
+    fn = {"constant_line": "poc_fit_constant_line", "constant_polynomial": "poc_fit_constant_polynomial",
+          "line_polynomial": "poc_fit_line_polynomial"}[which]
+    S = Session("C08", f"fit_{which}", f"{MOD}:{fn}")
+    st = {}
+
+    def setup(I):
+        st.pop("min_call", None)
+        force = A.new_array_input(I, "force")
+        n = force.len_term()
+        S.names.update(n=n)
+
+        def frechet(I, fv, args, kwargs):
+            j = z3.Int("frechet_estimate")
+            if I.fork(z3.Bool("frechet_is_nan")):
+                return V.NAN
+            I.assume(z3.And(j >= 0, j < args[0].len_term()))
+            return SInt(j)
+        I.contracts[f"{MOD}:poc_frechet_direct_path"] = frechet
+
+        def minimize(I, fcn=None, params=None, method=None, args=None, **kws):
+            st["min_call"] = dict(params={nm: dict(e[1].attrs) for nm, e in params.map.d.items()}, args=args,
+                                  method=method)
+            res = sx.Obj(sx.ClassVal("MinimizerResult", [sx.OBJECT], {}))
+            phat, ph = sym_parameters(I, list(params.map.d), prefix="fit")
+            res.attrs.update(params=phat, success=SBool(z3.Bool("fit_success")))
+            st["ph"] = ph
+            return res
+        I.lib["lmfit.minimize"] = minimize
+        st.update(force=force)
+        return I.lookup_qual(f"{MOD}:{fn}"), [force], {}
+
+    def post(S, out):
+        I = S.I
+        f = st["force"]
+        n = f.len_term()
+        case = {"outcome": repr(out)}
+        if out.kind != "return":
+            S.fail("total_up_to_the_optimiser", f"raises {out.value.cls.name}", case=case)
+            return
+        S.ok("total_up_to_the_optimiser")
+        rv = out.value
+        mc = st.get("min_call")
+        if mc is None:
+            # too short or constant: the documented "no estimate"
+            S.ensure("no_fit_means_nan", V.is_nan_const(rv), case=case)
+        else:
+            for nm, a in mc["params"].items():
+                v = a["value"]
+                isnum = (not V.is_nan_const(v)) and (not isinstance(v, SReal) or v.nan is False
+                                                      or I.valid(z3.Not(v.nan)))
+                S.ensure("minimize_precondition.initial_values_are_numbers", bool(isnum), witness=nm,
+                         case={"parameter": nm, "value": repr(v)})
+            data = mc["args"][1] if mc["args"] is not None and len(mc["args"]) > 1 else None
+            S.ensure("minimize_precondition.data_is_the_normalised_force", isinstance(data, SArray)
+                     and I.valid(data.len_term() == n), case=case)
+            if isinstance(data, SArray):
+                k = z3.Int("k")
+                S.names.update(k=k)
+                e = data.at(k)
+                nanfree = (not isinstance(e, SReal)) or e.nan is False or I.valid(
+                    z3.Implies(z3.And(k >= 0, k < n), z3.Not(e.nan)))
+                S.ensure("minimize_precondition.data_are_numbers", bool(nanfree), case=case)
+                S.ensure("normalised_to_unit_range", z3.Implies(z3.And(k >= 0, k < n),
+                                                                 z3.And(V.rterm(e) >= 0, V.rterm(e) <= 1)))
+            S.ensure("x0_is_a_free_parameter_started_inside_the_data",
+                     z3.And(V.rterm(mc["params"]["x0"]["value"]) >= 0, V.rterm(mc["params"]["x0"]["value"]) < n))
+            ok = z3.Bool("fit_success")
+            if V.is_nan_const(rv):
+                S.ensure("nan_only_when_the_fit_failed", z3.Not(ok), case=case)
+            elif isinstance(rv, (int, SInt)):
+                x0 = st["ph"]["x0"]["value"]
+                t = V.iterm(rv)
+                # int() truncates towards zero
+                S.ensure("estimate_is_the_truncated_fitted_x0",
+                         z3.And(ok, z3.If(x0 >= 0, z3.And(z3.ToReal(t) <= x0, x0 < z3.ToReal(t) + 1),
+                                          z3.And(z3.ToReal(t) >= x0, x0 > z3.ToReal(t) - 1))), case=case)
+            else:
+                S.fail("nan_or_integer", repr(rv), case=case)
+        S.ensure("frame.force", not any(mm is f for mm in I.mutations), case=case)
+
+    S.run(setup, post)
+    return S.finish(replay=replay_poc)
+
+
 # ------------------------------------------------------------------ native: replay + bounded
 def _curves(seed=0, n=600):
     import numpy as np
@@ -349,7 +448,11 @@ def replay_poc(ob):
     warnings.simplefilter("ignore")
     degenerate = {"constant": np.ones(50), "decreasing": np.linspace(1, 0, 50), "single": np.array([1.0]),
                   "two": np.array([0.0, 1.0]), "no baseline": np.linspace(0, 1, 60) ** 2,
-                  "short": np.array([0.0, 0.0, 0.1, 0.5, 1.0])}
+                  "short": np.array([0.0, 0.0, 0.1, 0.5, 1.0]),
+                  "linear ramp (600)": np.linspace(0, 1, 600), "exponential (800)": np.exp(np.linspace(0, 6, 800)),
+                  "started in contact (2000)": np.linspace(0.05, 1, 2000) ** 1.5,
+                  "baseline then one step": np.array([0.] * 20 + [1.]), "ramp (10)": np.arange(10.),
+                  "ramp then retract (1500)": np.concatenate([np.linspace(0, 1, 1200), np.linspace(1, 0, 300)])}
     for name, arr in degenerate.items():
         for m in METHODS:
             keep = arr.copy()
@@ -361,6 +464,11 @@ def replay_poc(ob):
             if not (isinstance(cp, (int, np.integer)) and 0 <= cp < arr.size):
                 return {"confirmed": True, "input": {"array": name, "method": m}, "observed": repr(cp),
                         "required": "a valid integer index"}
+            if ("ramp" in name or "started in contact" in name) and m == "gradient_zero_crossing" \
+                    and cp != (int(np.argmax(arr)) // 2):
+                # no baseline: this estimator has nothing to detect and the documented fallback applies
+                return {"confirmed": True, "input": {"array": name, "method": m}, "observed": int(cp),
+                        "required": f"fallback to the middle of the approach part ({int(np.argmax(arr)) // 2})"}
             if not np.array_equal(arr, keep):
                 return {"confirmed": True, "input": {"array": name, "method": m}, "observed": "input modified"}
     return {"confirmed": False}
@@ -413,14 +521,14 @@ def unit_bounded_estimators(tier=None, seed=0):
         if len(problems) > 5:
             break
     r = replay_poc(None)
-    ne += 36
+    ne += 72
     if r.get("confirmed"):
         problems.insert(0, {"method": r["input"]["method"], "array": r["input"]["array"], "what": r["observed"]})
     res = UnitResult(unit="bounded.estimators")
     res.bounded.append(BoundedResult(
         bid="C08.bounded.six_estimators_scale_offset_accuracy_degenerate", ok=not problems, evaluations=ne, distinct=ne,
         bound=f"6 estimators x {len(curves)} synthetic curves (2 exponents x 3 noise levels x 3 baseline lengths x 2 tilts) x "
-              "6 (scale, offset) pairs + 6 degenerate arrays; accuracy fractions (clean curves) stated in the code",
+              "6 (scale, offset) pairs + 12 degenerate arrays; accuracy fractions (clean curves) stated in the code",
         detail="valid indices; scale/offset independent within one sample (two for the Nelder-Mead fits); accurate on "
                "clean curves; fallback on degenerate arrays" if not problems else str(problems[0])[:300],
         samples=samples, failing_input=problems[0] if problems else None,
@@ -434,6 +542,15 @@ CANARIES = [
          new="        bl_dev = (force - bl_avg) < bl_rng", expect="C08"),
     dict(name="fallback to the end of the data", file="poc.py", old="        cp = force.size // 2", new="        cp = force.size",
          expect="valid_index_of_the_force_array"),
+    dict(name="estimate outside the data passed through", file="poc.py",
+         old="    if np.isnan(cp) or not 0 <= cp < force.size:", new="    if np.isnan(cp):",
+         expect="valid_index_of_the_force_array"),
+    dict(name="constant data reach the normalisation", file="poc.py",
+         old="    if force.size > 4 and np.ptp(force) > 0:  # 3 fit parameters", new="    if force.size > 4:  # 3 fit parameters",
+         expect="fit_constant_line.arith_defined"),
+    dict(name="initial slope divides by a zero contact estimate", file="poc.py",
+         old="        params.add('m', value=y[x0]/x0 if x0 else 0)", new="        params.add('m', value=y[x0]/x0)",
+         expect="fit_line_polynomial.arith_defined"),
     dict(name="threshold is one deviation", file="poc.py", old="        bl_rng = np.max(np.abs(baseline - bl_avg)) * 2",
          new="        bl_rng = np.max(np.abs(baseline - bl_avg))", expect="C08"),
     dict(name="clip keeps the maximum and works in place", file="poc.py", old="    fg0 = np.array(force, copy=True)",
@@ -454,6 +571,9 @@ def units(tier):
           Unit("deviation_from_baseline", unit_deviation), Unit("frechet_direct_path", unit_frechet),
           Unit("deviation_from_baseline.scale_offset_invariance", unit_relational, which="dev"),
           Unit("frechet_direct_path.scale_offset_invariance", unit_relational, which="frechet"),
+          Unit("fit_constant_line", unit_piecewise, which="constant_line"),
+          Unit("fit_constant_polynomial", unit_piecewise, which="constant_polynomial"),
+          Unit("fit_line_polynomial", unit_piecewise, which="line_polynomial"),
           Unit("bounded.estimators", unit_bounded_estimators)]
     if tier == "thorough" and not os.environ.get("VF_NO_CANARIES") and str(REPO) == "/repo":
         us.append(Unit("selftest.canaries", unit_canaries))
